@@ -20,6 +20,10 @@ structure Deliv where
   /-- the packet's answer-section PTR owner names (for the "for us" rule) -/
   ptrAnswers : List BList
   r : Wire.Rec
+  /-- section of the packet the record was in: 0 answer, 1 authority, 2 additional -/
+  sect : Nat := 0
+  /-- owner names (lower case) of the A / AAAA records in the packet's answer section -/
+  addrAnswers : List BList := []
   deriving Repr, Inhabited
 
 def deliveriesOn (links : Option (List (Nat × Bool))) (iters : List Iter) (d : Nat) : List Deliv :=
@@ -32,7 +36,9 @@ def deliveriesOn (links : Option (List (Nat × Bool))) (iters : List Iter) (d : 
       | .ok m =>
         if m.flags / 32768 % 2 == 1 then
           let ptrs := (m.answers.filter (·.ty == 12)).map (·.name)
-          (m.answers ++ m.authorities ++ m.additionals).map fun r => { k, t := it.now, ifi, ptrAnswers := ptrs, r }
+          let addrs := (m.answers.filter fun r => r.ty == 1 || r.ty == 28).map fun r => lower r.name
+          let mk (sect : Nat) (r : Wire.Rec) : Deliv := { k, t := it.now, ifi, ptrAnswers := ptrs, r, sect, addrAnswers := addrs }
+          m.answers.map (mk 0) ++ m.authorities.map (mk 1) ++ m.additionals.map (mk 2)
         else []
       | _ => []
 
@@ -59,17 +65,25 @@ def sameSet (a b : Wire.Rec) : Bool :=
     to iteration `kMax` (inclusive): its latest copy's TTL, shortened to one second after a
     cache-flush record of the same name/type/class (same interface for addresses) with other
     RDATA that arrived more than one second after that copy. -/
-def validUntil (ds : List Deliv) (x : Deliv) (kMax : Nat) : Nat :=
+def validUntilOf (keep : Deliv → Bool) (ds : List Deliv) (x : Deliv) (kMax : Nat) : Nat :=
   let copies := ds.filter fun y => y.k ≤ kMax && sameKey y.r x.r && (!(x.r.ty == 1 || x.r.ty == 28) || y.ifi == x.ifi)
-  match copies.getLast? with
+  -- A LOWER bound when `keep` is not constantly true.  A copy the daemon certainly takes in
+  -- (`keep`) resets the lifetime.  Another copy - in a packet that is "not for us" - is taken in
+  -- exactly when something is still cached under that name, which the monitor does not track:
+  -- the record then lives until the earlier of the two possibilities.
+  let lb := copies.foldl (fun (acc : Option (Nat × Deliv)) y =>
+    let e := y.t + 1000 * y.r.ttl
+    if keep y then some (e, y) else acc.map fun ((b, l) : Nat × Deliv) => (min b e, l)) none
+  match lb with
   | none => 0
-  | some last =>
-    let base := last.t + 1000 * last.r.ttl
+  | some (base, last) =>
     let flushes := ds.filter fun f =>
       f.k ≤ kMax && f.r.flush && sameSet f.r x.r && !sameKey f.r x.r &&
       (!(x.r.ty == 1 || x.r.ty == 28) || f.ifi == x.ifi) &&
       (f.k > last.k || (f.k == last.k && f.t ≥ last.t)) && f.t > last.t + 1000
     flushes.foldl (fun acc f => min acc (f.t + 1000)) base
+
+def validUntil (ds : List Deliv) (x : Deliv) (kMax : Nat) : Nat := validUntilOf (fun _ => true) ds x kMax
 
 /-! ### event token parsers -/
 
@@ -168,6 +182,28 @@ def monitorC03 (script : List Cmd) (iters : List Iter) (d : Nat) : Option String
 def forUs (browsed : List BList) (x : Deliv) : Bool :=
   x.ptrAnswers.isEmpty || x.ptrAnswers.any fun n => browsed.contains n
 
+/-- types certainly being browsed by daemon `d` when iteration `k` handles its packets: a
+    browse processed in an earlier iteration and no stop of it (nor a shutdown) up to `k` -/
+def browsedAt (calls : List (Cmd × Nat)) (d k : Nat) : List BList :=
+  calls.filterMap fun ((c, k0) : Cmd × Nat) =>
+    match c with
+    | .browse d' _ ty _ =>
+      if d' == d && k0 < k && !(calls.any fun ((c', k') : Cmd × Nat) =>
+          match c' with
+          | .stopBrowse d'' ty' => d'' == d && ty' == ty && k' ≥ k0 && k' ≤ k
+          | .shutdown d'' _ => d'' == d && k' ≤ k
+          | _ => false) then some ty else none
+    | _ => none
+
+/-- `stop_browse` purges the cache of the type's PTR records, of the SRV / TXT records of their
+    instances and of the addresses of their hosts (`remove_service_type`): a record delivered
+    in iteration `kx` may be gone at iteration `k` if daemon `d` processed a stop in between -/
+def purgedBetween (calls : List (Cmd × Nat)) (d kx k : Nat) : Bool :=
+  calls.any fun ((c, ks) : Cmd × Nat) =>
+    match c with
+    | .stopBrowse d' _ => d' == d && kx ≤ ks && ks ≤ k
+    | _ => false
+
 /-- `ok_C04` on loss-free scripted histories of daemon `d`: completeness at every
     iteration boundary for the FIRST browse of each type, and the three follow-up queries. -/
 def monitorC04 (script : List Cmd) (iters : List Iter) (d : Nat) : Option String :=
@@ -194,7 +230,10 @@ def monitorC04 (script : List Cmd) (iters : List Iter) (d : Nat) : Option String
       let t := (itArr[k]?.map (·.now)).getD 0
       -- usable, with the one-second margin the daemon itself applies
       let live (x : Deliv) : Bool :=
-        x.k > k0 && x.k ≤ k && forUs browsedTypes x && decide (t + 1000 < validUntil ds x k)
+        x.k > k0 && x.k ≤ k && forUs browsedTypes x && !purgedBetween calls d x.k k &&
+        -- a copy in a packet that is not for us refreshes a cached record only while one is
+        -- still cached; on the safe side it never counts as a refresh here
+        decide (t + 1000 < validUntilOf (forUs browsedTypes) ds x k)
       let insts := (ds.filter fun x => live x && x.r.ty == 12 && x.r.name == ty).filterMap fun x =>
         match x.r.rdata with | .ptr n => some n | _ => none
       insts.eraseDups.findSome? fun f =>
@@ -212,7 +251,20 @@ def monitorC04 (script : List Cmd) (iters : List Iter) (d : Nat) : Option String
             fun x => decide (x.r.ttl ≤ 1)).getD false
           if !found && goodbyeFirst then some s!"advertised-instance-not-found-after-goodbye-first inst={hexOfBytes f} t={t}"
           else if !found then some s!"advertised-instance-not-found inst={hexOfBytes f} by-iteration={k} t={t}"
-          else if !resolved then some s!"advertised-instance-not-resolved inst={hexOfBytes f} by-iteration={k} t={t}"
+          else if !resolved then
+            -- known finding D35: the set became complete through the refresh of a record that was
+            -- in its last second (so unusable) when the rest of the set was there; the refreshed
+            -- copy is "not new", so nothing looks at the instance again
+            let inSet (x : Deliv) : Bool :=
+              (x.r.ty == 12 && x.r.name == ty && (match x.r.rdata with | .ptr g => g == f | _ => false)) ||
+              ((x.r.ty == 33 || x.r.ty == 16) && lower x.r.name == lower f) ||
+              (x.r.ty == 1 && hosts.any fun h => lower x.r.name == lower h)
+            let lateRefresh := ds.any fun x => live x && inSet x && ds.any fun y =>
+              y.k < x.k && sameKey y.r x.r && y.r.ttl > 1 &&
+              decide (x.t < validUntil ds y (x.k - 1)) && decide (validUntil ds y (x.k - 1) ≤ x.t + 1000)
+            if lateRefresh then
+              some s!"advertised-instance-not-resolved-after-last-second-refresh inst={hexOfBytes f} by-iteration={k} t={t}"
+            else some s!"advertised-instance-not-resolved inst={hexOfBytes f} by-iteration={k} t={t}"
           else none
 
 /-- follow-up queries: a PTR for a browsed type arrives for an instance of which no SRV was
@@ -231,7 +283,9 @@ def monitorC04Followups (script : List Cmd) (iters : List Iter) (d : Nat) : Opti
   ds.findSome? fun x =>
     match x.r.rdata with
     | .ptr f =>
-      let browsed := browses.any fun ((ty, k0) : BList × Nat) => ty == x.r.name && k0 < x.k
+      -- the type is being browsed when the PTR arrives (a browse stopped before does not count)
+      let browsed := (browses.any fun ((ty, k0) : BList × Nat) => ty == x.r.name && k0 < x.k) &&
+        (browsedAt calls d x.k).contains x.r.name
       let firstPtr := !(ds.any fun y => y.k < x.k && y.r.ty == 12 && (match y.r.rdata with | .ptr g => lower g == lower f | _ => false))
       let srvSoon := ds.any fun y => y.r.ty == 33 && lower y.r.name == lower f && y.t ≤ x.t + 1600
       let stoppedSoon := ends.any fun k => k ≥ x.k && ((iters.toArray[k]?.map (·.now)).getD 0) ≤ x.t + 1600
@@ -263,7 +317,27 @@ def monitorC05 (script : List Cmd) (iters : List Iter) (d : Nat) : Option String
           let t := it.now
           -- "live" with the one-second margin of a goodbye: a record with at most a second
           -- left (TTL 0 or 1 just received) counts as withdrawn
-          let live (x : Deliv) : Bool := x.k ≤ k && decide (t + 1000 < validUntil ds x k)
+          -- ... and only records of packets the daemon certainly took in: no PTR answers, or
+          -- one for a type being browsed then (the parenthesis in C04's statement: packets that
+          -- are solely answers to someone else's browse are not cached)
+          -- (a copy in such a packet refreshes a cached record only while one is cached: here,
+          -- on the safe side, it never counts as a refresh, but its cache-flush bit does count)
+          let us (x : Deliv) : Bool := forUs (browsedAt calls d x.k) x
+          -- The event is emitted somewhere inside iteration `k`, between its packets: only what
+          -- was delivered in EARLIER iterations can be held against it, and a goodbye or a
+          -- cache-flush inside iteration `k` may already have taken effect.
+          -- a verify request caps the lifetime of the instance's SRV and address records at
+          -- request + timeout until an answer renews them: a record not delivered again after
+          -- the request (in a later iteration) may be gone from that deadline on
+          let capped (x : Deliv) : Bool := calls.any fun ((c, kv) : Cmd × Nat) =>
+            match c with
+            | .verify d' _ ms =>
+              d' == d && kv ≤ k && decide (((itArr[kv]?.map (·.now)).getD 0) + ms ≤ t + 1000) &&
+              !(ds.any fun y => us y && y.k > kv && y.k < k && sameKey y.r x.r)
+            | _ => false
+          let live (x : Deliv) : Bool := x.k < k && us x && !purgedBetween calls d x.k k && !capped x &&
+            decide (t + 1000 < validUntilOf us ds x (k - 1)) && decide (t + 1000 < validUntilOf us ds x k) &&
+            !(ds.any fun y => y.k == k && sameKey y.r x.r && y.r.ttl ≤ 1)
           let ptrLive := ds.any fun x => live x && x.r.ty == 12 && x.r.name == ty &&
             (match x.r.rdata with | .ptr g => g == f | _ => false)
           let srvs := ds.filter fun x => live x && x.r.ty == 33 && lower x.r.name == lower f
@@ -271,7 +345,7 @@ def monitorC05 (script : List Cmd) (iters : List Iter) (d : Nat) : Option String
             match s.r.rdata with
             | .srv _ _ _ h => ds.any fun x => live x && (x.r.ty == 1 || x.r.ty == 28) && lower x.r.name == lower h
             | _ => false
-          if ptrLive && !srvs.isEmpty && addrLive && !verified && !ifaceChange then
+          if ptrLive && !srvs.isEmpty && addrLive && !ifaceChange then
             some s!"removed-while-PTR-SRV-and-address-live inst={hexOfBytes f} t={t}"
           else none
         | _, _ => some "unparsable-removed-event"
@@ -316,7 +390,8 @@ def monitorC05 (script : List Cmd) (iters : List Iter) (d : Nat) : Option String
         match later with
         | none => none
         | some e =>
-          if ds.any (fun x => x.k > k && x.k ≤ e.1) then none
+          -- (packets of iteration `k` itself may have been read after the removal was sent)
+          if ds.any (fun x => x.k ≥ k && x.k ≤ e.1) then none
           else some s!"ServiceResolved-after-ServiceRemoved-without-new-records inst={instH}"
       | _ => none
   unsound <|> late <|> noisy
@@ -368,6 +443,52 @@ def monitorC17 (script : List Cmd) (iters : List Iter) (d : Nat) : Option String
             if verified || !(itArr[k]?.map (fun i => i.rx.isEmpty)).getD true then none
             else some s!"AddressesRemoved-lists-address-with-no-expired-record ip={hexOfBytes a.ip} t={t}"
           | none => none
+
+/-- `ok_C17`, completeness: while a search for a host name is open, an address record for that
+    name (any letter case) that reaches the daemon - for the first time in the history, with a
+    TTL above one second, in a packet the daemon takes in (no PTR answers, or a PTR answer of a
+    browsed type, or an address answer for a searched host: `handle_response`'s "for us" rule;
+    or any packet once accept_unsolicited is on) - is reported through AddressesFound on the
+    search's channel in the very iteration that reads the packet. -/
+def monitorC17Complete (script : List Cmd) (iters : List Iter) (d : Nat) : Option String :=
+  let ds := deliveriesOn (linksOf script d) iters d
+  let calls := processedCalls script iters cmdDaemon
+  let itArr := iters.toArray
+  let timeOf (k : Nat) := (itArr[k]?.map (·.now)).getD 0
+  -- searches of daemon d: (channel, host lower-cased, first iteration, last iteration it is certainly open)
+  let openAt (h : BList) (k0 : Nat) (to : Option Nat) (k : Nat) : Bool :=
+    k0 < k &&
+    !(calls.any fun ((c', k') : Cmd × Nat) =>
+        match c' with
+        | .stopResolve d' h' => d' == d && lower h' == lower h && k' ≥ k0 && k' ≤ k
+        | .resolve d' _ h' _ => d' == d && lower h' == lower h && k' > k0 && k' ≤ k
+        | .shutdown d' _ => d' == d && k' ≤ k
+        | _ => false) &&
+    (match to with | some ms => decide (timeOf k + 1 < timeOf k0 + ms) | none => true)
+  let searches := calls.filterMap fun ((c, k0) : Cmd × Nat) =>
+    match c with | .resolve d' ch h to => if d' == d then some (ch, h, k0, to) else none | _ => none
+  let ifaceChange := script.any fun c => match c with | .ifaces .. => true | _ => false
+  if ifaceChange then none else
+  searches.findSome? fun ((ch, h, k0, to) : Nat × BList × Nat × Option Nat) =>
+    ds.findSome? fun x =>
+      if !((x.r.ty == 1 || x.r.ty == 28) && lower x.r.name == lower h && x.r.ttl > 1 && openAt h k0 to x.k) then none else
+      let searchedHosts := searches.filterMap fun ((_, h', k0', to') : Nat × BList × Nat × Option Nat) =>
+        if openAt h' k0' to' x.k then some (lower h') else none
+      let takenIn := x.ptrAnswers.isEmpty || (x.ptrAnswers.any fun n => (browsedAt calls d x.k).contains n) ||
+        x.addrAnswers.any fun n => searchedHosts.contains n
+      let firstEver := !(ds.any fun y => y.k < x.k && (y.r.ty == 1 || y.r.ty == 28) && lower y.r.name == lower h &&
+        ipOf y.r == ipOf x.r)
+      if !takenIn || !firstEver then none else
+      match ipOf x.r with
+      | none => none
+      | some ip =>
+        let reported := (chanEvents iters d ch).any fun e =>
+          e.1 == x.k && e.2.headD "" == "hfound" &&
+          (match parseAddrsEvent e.2 with
+           | some (_, _, addrs) => addrs.any fun a => a.ip == ip
+           | none => false)
+        if reported then none
+        else some s!"address-of-searched-host-not-reported host={hexOfBytes h} ip={hexOfBytes ip} t={x.t}"
 
 /-! ### C20 -/
 
